@@ -374,6 +374,13 @@ func runOp(toks []string) *run {
 			return &run{status: "unloadable", detail: err.Error()}
 		}
 		return runPod(toks[1], pod, ns)
+	case "kubeinject":
+		if len(toks) != 4 {
+			return &run{status: "unloadable", detail: "bad op"}
+		}
+		doc := 0
+		fmt.Sscan(toks[3], &doc)
+		return runKubeInject(toks[1], wire.Dec(toks[2]), doc)
 	case "pod":
 		if len(toks) != 4 {
 			return &run{status: "unloadable", detail: "bad op"}
@@ -385,6 +392,118 @@ func runOp(toks []string) *run {
 		return runPod(toks[1], pod, wire.Dec(toks[2]))
 	}
 	return &run{status: "unloadable", detail: "unknown op"}
+}
+
+// ---------------------------------------------------------------- the kube-inject path (public API IntoObject)
+
+// templateOf returns the pod (template) inside a workload object, without the owner simulation of objectToPod.
+func templateOf(obj runtime.Object) *corev1.Pod {
+	mk := func(t corev1.PodTemplateSpec) *corev1.Pod { return &corev1.Pod{ObjectMeta: t.ObjectMeta, Spec: t.Spec} }
+	switch o := obj.(type) {
+	case *corev1.Pod:
+		return o
+	case *batchv1.CronJob:
+		// IntoObject treats jobTemplate.metadata + jobTemplate.spec.template.spec as "the pod" of a CronJob
+		// (pinned by the golden file cronjob.yaml.injected); observe the same pair
+		return &corev1.Pod{ObjectMeta: o.Spec.JobTemplate.ObjectMeta, Spec: o.Spec.JobTemplate.Spec.Template.Spec}
+	case *appsv1.DaemonSet:
+		return mk(o.Spec.Template)
+	case *appsv1.ReplicaSet:
+		return mk(o.Spec.Template)
+	case *corev1.ReplicationController:
+		if o.Spec.Template == nil {
+			return nil
+		}
+		return mk(*o.Spec.Template)
+	case *appsv1.StatefulSet:
+		return mk(o.Spec.Template)
+	case *batchv1.Job:
+		return mk(o.Spec.Template)
+	case *openshiftv1.DeploymentConfig:
+		if o.Spec.Template == nil {
+			return nil
+		}
+		return mk(*o.Spec.Template)
+	case *appsv1.Deployment:
+		return mk(o.Spec.Template)
+	}
+	return nil
+}
+
+// runKubeInject: `istioctl kube-inject` on a fixture document, then on its own output.
+func runKubeInject(settingName, file string, doc int) (r *run) {
+	r = &run{}
+	defer func() {
+		if e := recover(); e != nil {
+			r.status, r.detail = "crash", fmt.Sprint(e)
+		}
+	}()
+	l, err := loadSetting(settingName)
+	if err != nil {
+		r.status, r.detail = "unloadable", err.Error()
+		return r
+	}
+	docs := fixtureDocs(file)
+	if doc >= len(docs) {
+		r.status, r.detail = "unloadable", "no such document"
+		return r
+	}
+	obj, err := inject.FromRawToObject([]byte(docs[doc]))
+	if err != nil {
+		r.status, r.detail = "unloadable", err.Error()
+		return r
+	}
+	prev := features.EnableNativeSidecars
+	features.EnableNativeSidecars = features.NativeSidecarModeDisabled
+	if l.native {
+		features.EnableNativeSidecars = features.NativeSidecarModeEnabled
+	}
+	defer func() { features.EnableNativeSidecars = prev }()
+	wc := l.wh.GetConfig()
+	into := func(in runtime.Object) (runtime.Object, error) {
+		out, err := inject.IntoObject(nil, wc.Templates, wc.Values, "", wc.MeshConfig, in, func(string) {})
+		if err != nil {
+			return nil, err
+		}
+		o, ok := out.(runtime.Object)
+		if !ok {
+			return nil, fmt.Errorf("IntoObject returned %T", out)
+		}
+		return o, nil
+	}
+	norm := func(o runtime.Object) (*corev1.Pod, []byte) {
+		p := templateOf(o)
+		if p == nil {
+			return nil, nil
+		}
+		b, _ := json.Marshal(p)
+		q := &corev1.Pod{}
+		_ = json.Unmarshal(b, q)
+		return q, b
+	}
+	r.orig, r.origJSON = norm(obj)
+	if r.orig == nil {
+		r.status, r.detail = "unloadable", "no pod template"
+		return r
+	}
+	o1, err := into(obj)
+	if err != nil {
+		r.status, r.detail = "error", err.Error()
+		return r
+	}
+	r.once, r.onceJSON = norm(o1)
+	if jsonEqual(r.origJSON, r.onceJSON) {
+		r.status = "skipped"
+		return r
+	}
+	r.status = "injected"
+	o2, err := into(o1)
+	if err != nil {
+		r.status, r.detail = "error-on-reinjection", err.Error()
+		return r
+	}
+	r.twice, r.twiceJSON = norm(o2)
+	return r
 }
 
 // ---------------------------------------------------------------- reduction to the monitor's line form
